@@ -248,6 +248,24 @@ let eval (op : string) (a : string list) : string =
     let cfg = mk_cfg (sync = "1") (z_of_hex start) in
     let evs = if toks = ["."] then [] else List.map (event_of cfg) toks in
     check_history cfg (List.rev evs)
+  | "quiet", sync :: start :: existing :: toks ->
+    (* a multi-topic history run to quiescence: Q=<g> marks the settled generation *)
+    let cfg = mk_cfg (sync = "1") (z_of_hex start) in
+    let existing = tps existing in
+    let g = ref None in
+    let evs = List.filter_map (fun tk ->
+      if tk = "." then None
+      else if String.length tk > 2 && String.sub tk 0 2 = "Q=" then
+        (g := Some (n_of_hex (String.sub tk 2 (String.length tk - 2))); None)
+      else Some (event_of cfg tk)) toks in
+    let h = List.rev evs in
+    (match check_history cfg h, !g with
+     | "ok", Some g ->
+       if not (assignment_covers_existing_b existing g h) then "VIOL:assignment-covers-existing"
+       else if not (all_delivered_b existing h) then "VIOL:not-all-delivered"
+       else "ok"
+     | "ok", None -> "VIOL:never-settled"
+     | r, _ -> r)
   | "mrun", sync :: start :: toks -> run_model_labels (mk_cfg (sync = "1") (z_of_hex start)) toks
   | _ -> "BADCASE"
 
